@@ -494,13 +494,26 @@ func (d *denum) run(stmts []ast.Stmt, in []dstate) []dstate {
 			elems := d.constElems(s.X, cur)
 			if elems == nil {
 				if d.opaqueLoops {
-					cur = traced(cur, s)
+					cur = d.havoc(s, traced(cur, s))
 					continue
 				}
 				d.undecided = "a range statement over something that is not a constant list"
 				return nil
 			}
 			val, _ := s.Value.(*ast.Ident)
+			if d.opaqueLoops {
+				jumps := false
+				ast.Inspect(s.Body, func(n ast.Node) bool {
+					if _, ok := n.(*ast.BranchStmt); ok {
+						jumps = true
+					}
+					return true
+				})
+				if jumps {
+					cur = d.havoc(s, traced(cur, s))
+					continue
+				}
+			}
 			for _, el := range elems {
 				states := cur
 				if val != nil && val.Name != "_" {
@@ -521,7 +534,7 @@ func (d *denum) run(stmts []ast.Stmt, in []dstate) []dstate {
 			}
 		case *ast.ForStmt:
 			if d.opaqueLoops {
-				cur = traced(cur, s)
+				cur = d.havoc(s, traced(cur, s))
 				continue
 			}
 			d.undecided = "a for statement"
@@ -601,4 +614,50 @@ func callFree(e ast.Expr) bool {
 		return free
 	})
 	return free
+}
+
+// havoc: after a loop (or other statement) that is stepped over, the variables it assigns no longer have a known binding.
+func (d *denum) havoc(st ast.Stmt, in []dstate) []dstate {
+	assigned := map[types.Object]bool{}
+	ast.Inspect(st, func(n ast.Node) bool {
+		switch x := n.(type) {
+		case *ast.AssignStmt:
+			for _, l := range x.Lhs {
+				if id, ok := l.(*ast.Ident); ok {
+					if ob := d.info.ObjectOf(id); ob != nil {
+						assigned[ob] = true
+					}
+				}
+			}
+		case *ast.IncDecStmt:
+			if id, ok := x.X.(*ast.Ident); ok {
+				if ob := d.info.ObjectOf(id); ob != nil {
+					assigned[ob] = true
+				}
+			}
+		case *ast.RangeStmt:
+			for _, e := range []ast.Expr{x.Key, x.Value} {
+				if id, ok := e.(*ast.Ident); ok {
+					if ob := d.info.ObjectOf(id); ob != nil {
+						assigned[ob] = true
+					}
+				}
+			}
+		}
+		return true
+	})
+	if len(assigned) == 0 {
+		return in
+	}
+	out := make([]dstate, len(in))
+	for i, s := range in {
+		env := map[types.Object]ast.Expr{}
+		for k, v := range s.env {
+			if !assigned[k] {
+				env[k] = v
+			}
+		}
+		out[i] = dstate{conds: s.conds, env: env, trace: s.trace}
+	}
+	return out
 }
